@@ -2,6 +2,7 @@ package c18
 
 import (
 	"bufio"
+	"bytes"
 	"crypto/x509"
 	"encoding/hex"
 	"encoding/json"
@@ -44,10 +45,16 @@ type runT struct {
 	// Kill < 0: the run completes and its identity is observed. Kill >= 0: the starting
 	// process is SIGKILLed Kill/killSteps of the way through the estimated start-up time.
 	Kill int `json:"kill"`
+	// KillRec > 0: the starting process is SIGKILLed as soon as KillRec identity records (ssh
+	// key, ftp/smtp/ldap key and certificate, agent key) are in the store's value log - a
+	// kill aimed at an on-disk state instead of an instant.
+	KillRec int `json:"kill_rec,omitempty"`
 	// DelayMs is filled in when a case is recorded (the delay that was actually used) and
 	// honoured on replay.
 	DelayMs float64 `json:"delay_ms,omitempty"`
 }
+
+func (r runT) killed() bool { return r.Kill >= 0 || r.KillRec > 0 }
 
 func (r runT) set() string {
 	var s []string
@@ -100,6 +107,9 @@ type histCase struct {
 
 const killSteps = 40
 
+// maxReports bounds the replay files one enumerator writes per process.
+const maxReports = 2
+
 var tokenRe = regexp.MustCompile(`^[0-9a-v]{20}$`)
 
 func (c histCase) crashState() bool {
@@ -127,7 +137,7 @@ func (c histCase) nontrivial() bool {
 		if i > 0 && r.set() != c.Runs[i-1].set() {
 			return true
 		}
-		if r.Kill >= 0 {
+		if r.killed() {
 			tainted = true
 			continue
 		}
@@ -190,8 +200,56 @@ var selfExe = func() string {
 
 const childDeadline = 150 * time.Second
 
-// runChild starts one sensor process on dataDir. kill < 0: wait for it to finish.
-func runChild(dataDir string, r runT, kill time.Duration) childResult {
+var recordNames = []string{"ssh.private-key", "ftp.pemkey", "ftp.pemcert", "smtp.pemkey", "smtp.pemcert", "ldap.pemkey", "ldap.pemcert", "agent.key"}
+
+// diskRecords reports which identity records the store's value log holds (by name; the
+// value log is append-only and holds keys in clear). Used to aim kills and to label the
+// on-disk state a kill left behind - never as an oracle.
+func diskRecords(dataDir string) map[string]bool {
+	out := map[string]bool{}
+	files, _ := filepath.Glob(filepath.Join(dataDir, "badger.db", "*.vlog"))
+	for _, f := range files {
+		data, err := os.ReadFile(f)
+		if err != nil {
+			continue
+		}
+		for _, n := range recordNames {
+			if bytes.Contains(data, []byte(n)) {
+				out[n] = true
+			}
+		}
+	}
+	return out
+}
+
+// diskLabel classifies the state of the data directory after a kill.
+func diskLabel(dataDir string) string {
+	if _, err := os.Stat(dataDir); err != nil {
+		return "no-datadir"
+	}
+	if _, err := os.Stat(filepath.Join(dataDir, "badger.db", "MANIFEST")); err != nil {
+		return "store-not-initialised"
+	}
+	tok, err := os.ReadFile(filepath.Join(dataDir, "token"))
+	if err != nil {
+		return "no-token"
+	}
+	if !tokenRe.Match(tok) {
+		return "token-malformed"
+	}
+	recs := diskRecords(dataDir)
+	for _, s := range []string{"ftp", "smtp", "ldap"} {
+		if recs[s+".pemkey"] && !recs[s+".pemcert"] {
+			return "key-without-certificate"
+		}
+	}
+	return fmt.Sprintf("records=%d", len(recs))
+}
+
+// runChild starts one sensor process on dataDir. kill >= 0: SIGKILL after that delay;
+// killRec > 0: SIGKILL as soon as that many identity records are on disk; otherwise wait
+// for the process to finish.
+func runChild(dataDir string, r runT, kill time.Duration, killRec int) childResult {
 	var res childResult
 	spec := Spec{DataDir: dataDir, SSH: r.SSH, FTP: r.FTP, SMTP: r.SMTP, LDAP: r.LDAP, Agent: r.Agent}
 	sj, _ := json.Marshal(spec)
@@ -223,17 +281,33 @@ func runChild(dataDir string, r runT, kill time.Duration) childResult {
 	}
 	pw.Close()
 	var mu sync.Mutex
-	killedCh := make(chan struct{})
 	var killTimer *time.Timer
-	if kill >= 0 {
-		killTimer = time.AfterFunc(kill, func() {
-			mu.Lock()
-			res.Killed = true
-			res.KilledAt = time.Since(t0)
-			mu.Unlock()
-			cmd.Process.Signal(syscall.SIGKILL)
-			close(killedCh)
-		})
+	doKill := func() {
+		mu.Lock()
+		res.Killed = true
+		res.KilledAt = time.Since(t0)
+		mu.Unlock()
+		cmd.Process.Signal(syscall.SIGKILL)
+	}
+	stopWatch := make(chan struct{})
+	if killRec > 0 {
+		base := len(diskRecords(dataDir))
+		go func() {
+			for {
+				select {
+				case <-stopWatch:
+					return
+				default:
+				}
+				if len(diskRecords(dataDir))-base >= killRec {
+					doKill()
+					return
+				}
+				time.Sleep(150 * time.Microsecond)
+			}
+		}()
+	} else if kill >= 0 {
+		killTimer = time.AfterFunc(kill, doKill)
 	}
 	guard := time.AfterFunc(childDeadline, func() {
 		mu.Lock()
@@ -268,6 +342,7 @@ func runChild(dataDir string, r runT, kill time.Duration) childResult {
 		}
 	}()
 	werr := cmd.Wait()
+	close(stopWatch)
 	guard.Stop()
 	if killTimer != nil {
 		killTimer.Stop()
@@ -279,6 +354,7 @@ func runChild(dataDir string, r runT, kill time.Duration) childResult {
 		res.Exit = werr.Error()
 	} else {
 		res.Exit = "exit status 0"
+		res.Killed = false // it had finished by itself when the signal was sent
 	}
 	res.Output = out.String()
 	return res
@@ -303,12 +379,12 @@ func calibrate() {
 		}
 		defer os.RemoveAll(base)
 		all := runT{SSH: "ssh-simulator", FTP: true, SMTP: true, LDAP: true, Agent: true, Kill: -1}
-		a := runChild(filepath.Join(base, "data"), all, -1)
+		a := runChild(filepath.Join(base, "data"), all, -1, 0)
 		if a.Identity == nil || !a.SawStarted {
 			calErr = fmt.Sprintf("calibration child did not come up: %s %s %s\n%s", a.HarnessErr, a.Fatal, a.Exit, a.Output)
 			return
 		}
-		b := runChild(filepath.Join(base, "data"), all, -1)
+		b := runChild(filepath.Join(base, "data"), all, -1, 0)
 		if b.Identity == nil || !b.SawStarted {
 			calErr = fmt.Sprintf("second calibration child did not come up: %s %s %s\n%s", b.HarnessErr, b.Fatal, b.Exit, b.Output)
 			return
@@ -365,6 +441,7 @@ type verdict struct {
 	Violation string
 	Infra     string
 	Flaky     []string
+	Notes     []string
 	Labels    []string
 	Used      histCase // the case with the delays that were used
 }
@@ -454,13 +531,21 @@ func checkHistory(c histCase) (v verdict) {
 				newRSA++
 			}
 		}
-		if r.Kill >= 0 {
-			delay := killDelay(r.Kill, newRSA)
-			if r.DelayMs > 0 {
-				delay = time.Duration(r.DelayMs * float64(time.Millisecond))
+		if r.killed() {
+			var res childResult
+			how := ""
+			if r.KillRec > 0 {
+				res = runChild(dataDir, r, -1, r.KillRec)
+				how = fmt.Sprintf("when %d more identity records were on disk", r.KillRec)
+			} else {
+				delay := killDelay(r.Kill, newRSA)
+				if r.DelayMs > 0 {
+					delay = time.Duration(r.DelayMs * float64(time.Millisecond))
+				}
+				v.Used.Runs[i].DelayMs = float64(delay) / float64(time.Millisecond)
+				res = runChild(dataDir, r, delay, 0)
+				how = fmt.Sprintf("%.0f ms after exec", v.Used.Runs[i].DelayMs)
 			}
-			v.Used.Runs[i].DelayMs = float64(delay) / float64(time.Millisecond)
-			res := runChild(dataDir, r, delay)
 			if res.HarnessErr != "" {
 				v.Infra = fmt.Sprintf("run %d: %s", i, res.HarnessErr)
 				return
@@ -473,20 +558,20 @@ func checkHistory(c histCase) (v verdict) {
 				} else if res.SawBoot {
 					phase = "during-start-up"
 				}
-				v.Labels = append(v.Labels, "kill:"+phase)
+				v.Labels = append(v.Labels, "kill:"+phase, "disk-after-kill:"+diskLabel(dataDir))
 				if why == "" {
-					why = fmt.Sprintf("run %d SIGKILLed %.0f ms after exec (%s)", i, v.Used.Runs[i].DelayMs, phase)
+					why = fmt.Sprintf("run %d SIGKILLed %s (%s, left %s)", i, how, phase, diskLabel(dataDir))
 				}
 				continue
 			}
-			// the process finished before the kill instant: it is a completed run
+			// the process finished before the kill: it is a completed run
 			v.Labels = append(v.Labels, "kill:too-late")
 			if msg, infra := judge(&v, c, i, r, res, dataDir, tainted, why, known); msg != "" || infra != "" {
 				v.Violation, v.Infra = msg, infra
 				return
 			}
 		} else {
-			res := runChild(dataDir, r, -1)
+			res := runChild(dataDir, r, -1, 0)
 			if msg, infra := judge(&v, c, i, r, res, dataDir, tainted, why, known); msg != "" || infra != "" {
 				v.Violation, v.Infra = msg, infra
 				return
@@ -524,7 +609,9 @@ func judge(v *verdict, c histCase, i int, r runT, res childResult, dataDir strin
 		for _, it := range r.enabled() {
 			if e, bad := res.Identity.Errs[it]; bad {
 				if strings.HasPrefix(e, "infra:") {
-					return it + ": " + e, true
+					// the environment kept the harness from looking at this item in this
+					// run (loopback sockets): the run simply does not observe it
+					continue
 				}
 				return fmt.Sprintf("enabled service %s presented no identity: %s", it, e), false
 			}
@@ -537,7 +624,7 @@ func judge(v *verdict, c histCase, i int, r runT, res childResult, dataDir strin
 	problem, harness := attempt(res)
 	if problem != "" {
 		first := problem
-		res = runChild(dataDir, r, -1)
+		res = runChild(dataDir, r, -1, 0)
 		problem, harness = attempt(res)
 		if problem == "" {
 			v.Flaky = append(v.Flaky, fmt.Sprintf("%s: %s - not reproduced by an immediate further restart", ctx, trunc(first, 300)))
@@ -565,8 +652,15 @@ func judge(v *verdict, c histCase, i int, r runT, res childResult, dataDir strin
 		return fmt.Sprintf("%s: token on events is %q, but run %d on the same data directory had %q", ctx, tok, k.run, k.val), ""
 	} else if !ok {
 		known["token"] = seenT{tok, i}
+	} else {
+		v.Labels = append(v.Labels, "compared:token")
 	}
 	for _, it := range r.enabled() {
+		if e := id.Errs[it]; strings.HasPrefix(e, "infra:") {
+			v.Labels = append(v.Labels, "unobservable:"+it)
+			v.Notes = append(v.Notes, fmt.Sprintf("%s: %s not observed: %s", ctx, it, trunc(e, 200)))
+			continue
+		}
 		val := id.Items[it]
 		if err := wellFormed(it, val); err != nil {
 			return fmt.Sprintf("%s: %s identity is not well-formed: %v", ctx, it, err), ""
@@ -575,6 +669,8 @@ func judge(v *verdict, c histCase, i int, r runT, res childResult, dataDir strin
 			return fmt.Sprintf("%s: %s identity is %s, but run %d on the same data directory presented %s", ctx, it, short(val), k.run, short(k.val)), ""
 		} else if !ok {
 			known[it] = seenT{val, i}
+		} else {
+			v.Labels = append(v.Labels, "compared:"+it)
 		}
 	}
 	return "", ""
@@ -599,8 +695,13 @@ func genRun(rt *rapid.T, i int, last bool) runT {
 	r.LDAP = rapid.IntRange(0, 2).Draw(rt, fmt.Sprintf("ldap%d", i)) > 0
 	r.Agent = rapid.IntRange(0, 2).Draw(rt, fmt.Sprintf("agent%d", i)) > 0
 	r.Kill = -1
-	if !last && rapid.IntRange(0, 9).Draw(rt, fmt.Sprintf("killp%d", i)) < 4 {
-		r.Kill = rapid.IntRange(0, killSteps).Draw(rt, fmt.Sprintf("kill%d", i))
+	if !last {
+		switch p := rapid.IntRange(0, 9).Draw(rt, fmt.Sprintf("killp%d", i)); {
+		case p < 3:
+			r.Kill = rapid.IntRange(0, killSteps).Draw(rt, fmt.Sprintf("kill%d", i))
+		case p < 5:
+			r.KillRec = rapid.IntRange(1, 7).Draw(rt, fmt.Sprintf("killrec%d", i))
+		}
 	}
 	return r
 }
@@ -641,7 +742,7 @@ func account(r *vlib.Run, label string, c histCase, v verdict) {
 	kills := 0
 	changed := false
 	for i, x := range c.Runs {
-		if x.Kill >= 0 {
+		if x.killed() {
 			kills++
 		}
 		if i > 0 && x.set() != c.Runs[i-1].set() {
@@ -660,9 +761,12 @@ func account(r *vlib.Run, label string, c histCase, v verdict) {
 	for _, f := range v.Flaky {
 		r.Flaky(f)
 	}
+	for _, n := range v.Notes {
+		r.Note("%s", n)
+	}
 }
 
-const ruleText = "every run of a history is a separate OS process running the real server on one data directory; histories of 2..5 runs with drawn service sets {ssh-simulator|ssh-auth, ftp, smtp, ldap, agent listener}, initial token file absent / empty / proper prefix / complete, runs SIGKILLed at a delay on a 41-step grid from process boot to 1.2x the measured start-up time; oracle: one well-formed token on all events, equal token / host key / certificates / agent key between completed runs that enable the item, a start after a crash state comes up well-formed; non-trivial = >=1 completed restart after a crash state (empty/prefix token file or a killed start) or a restart with a changed service set; distinct by whole history"
+const ruleText = "every run of a history is a separate OS process running the real server on one data directory; histories of 2..5 runs with drawn service sets {ssh-simulator|ssh-auth, ftp, smtp, ldap, agent listener}, initial token file absent / empty / proper prefix / complete, runs SIGKILLed at a delay on a 41-step grid from process boot to 1.2x the measured start-up time or as soon as 1..7 identity records reached the store; oracle: one well-formed token on all events, equal token / host key / certificates / agent key between completed runs that enable the item, a start after a crash state comes up well-formed; non-trivial = >=1 completed restart after a crash state (empty/prefix token file or a killed start) or a restart with a changed service set; distinct by whole history"
 
 // ---------------------------------------------------------------- tests
 
@@ -681,14 +785,36 @@ func TestHistories(t *testing.T) {
 		}
 		return
 	}
+	// One shrink attempt costs seconds (2..5 process starts) and rapid checks its shrink
+	// deadline only between strategy steps, so the time spent minimising is bounded here:
+	// once the budget is used up candidates are no longer executed (they count as passing)
+	// and the smallest failing history found so far fails again from memory.
+	var (
+		firstFail time.Time
+		failKey   string
+		failMsg   string
+		failUsed  histCase
+	)
+	budget := time.Duration(r.Pick(40, 120)) * time.Second
 	r.Rapid(t, "TestHistories", r.Pick(14, 180), func(rt *rapid.T) {
 		c := genCase(rt)
+		key := vlib.JSON(c)
+		if !firstFail.IsZero() && time.Since(firstFail) > budget {
+			if key == failKey {
+				r.Fail(rt, "TestHistories", failUsed, "%s", failMsg)
+			}
+			return
+		}
 		v := checkHistory(c)
 		if v.Infra != "" {
 			rt.Fatalf("infra: %s", v.Infra)
 		}
 		account(r, fmt.Sprintf("history/len=%d", len(c.Runs)), c, v)
 		if v.Violation != "" {
+			if firstFail.IsZero() {
+				firstFail = time.Now()
+			}
+			failKey, failMsg, failUsed = key, v.Violation, v.Used
 			r.Fail(rt, "TestHistories", v.Used, "%s", v.Violation)
 		}
 	})
@@ -725,6 +851,7 @@ func TestTokenFileStates(t *testing.T) {
 		return
 	}
 	shard, shards := r.Shard()
+	failed := 0
 	var cases []histCase
 	cases = append(cases, histCase{TokenFile: "absent"}, histCase{TokenFile: "absent", DirExists: true})
 	for n := 0; n <= 20; n++ {
@@ -753,8 +880,18 @@ func TestTokenFileStates(t *testing.T) {
 		for _, f := range v.Flaky {
 			r.Flaky(f)
 		}
+		for _, n := range v.Notes {
+			r.Note("%s", n)
+		}
+		for _, l := range v.Labels {
+			r.Label(l, 1)
+		}
 		if v.Violation != "" {
 			r.Violation(t, "TestTokenFileStates", v.Used, v.Violation)
+			if failed++; failed >= maxReports {
+				t.Logf("stopping after %d violations", failed)
+				return
+			}
 		}
 	}
 	r.Exhaustive("token file states before the first start: absent (with and without data directory), empty, every proper prefix (1..19 characters) of a valid token, the complete token")
@@ -780,6 +917,7 @@ func TestKillSweep(t *testing.T) {
 		return
 	}
 	shard, shards := r.Shard()
+	failed := 0
 	stride := r.Pick(2, 1)
 	idx := 0
 	for k := 0; k <= killSteps; k += stride {
@@ -802,6 +940,64 @@ func TestKillSweep(t *testing.T) {
 		account(r, "kill-sweep", c, v)
 		if v.Violation != "" {
 			r.Violation(t, "TestKillSweep", v.Used, v.Violation)
+			if failed++; failed >= maxReports {
+				t.Logf("stopping after %d violations", failed)
+				return
+			}
+		}
+	}
+}
+
+// TestKillStates: a first start with all services is killed as soon as n = 1..7 identity
+// records have reached the store (in particular between a service's key and its
+// certificate), then restarted twice. The order in which services are constructed is the
+// server's (map order), so repetitions see different record sets for the same n.
+func TestKillStates(t *testing.T) {
+	r := vlib.Open(prop)
+	r.Rule(ruleText)
+	var c histCase
+	if vlib.ReplayCase("TestKillStates", &c) {
+		v := checkHistory(c)
+		if v.Infra != "" {
+			t.Fatalf("infra: %s", v.Infra)
+		}
+		if v.Violation != "" {
+			r.Violation(t, "TestKillStates", v.Used, v.Violation)
+		}
+		return
+	}
+	if vlib.Replaying() {
+		return
+	}
+	shard, shards := r.Shard()
+	failed := 0
+	idx := 0
+	for rep := 0; rep < r.Pick(1, 6); rep++ {
+		for n := 1; n <= 7; n++ {
+			idx++
+			if idx%shards != shard {
+				continue
+			}
+			sshType := "ssh-simulator"
+			if idx%2 == 1 {
+				sshType = "ssh-auth"
+			}
+			all := runT{SSH: sshType, FTP: true, SMTP: true, LDAP: true, Agent: true, Kill: -1}
+			killed := all
+			killed.KillRec = n
+			c := histCase{TokenFile: "absent", Runs: []runT{killed, all, all}}
+			v := checkHistory(c)
+			if v.Infra != "" {
+				t.Fatalf("infra: %s", v.Infra)
+			}
+			account(r, "kill-at-records", c, v)
+			if v.Violation != "" {
+				r.Violation(t, "TestKillStates", v.Used, v.Violation)
+				if failed++; failed >= maxReports {
+					t.Logf("stopping after %d violations", failed)
+					return
+				}
+			}
 		}
 	}
 }
